@@ -42,6 +42,8 @@ type ImpStats struct {
 	Imports, Wildcards, MustKeep, Kept      int
 	Unused, UnusedDeleted                   int
 	BystanderFiles, BystanderUnusedKept     int
+	NonASCIIMustKeep, NonASCIIKept          int
+	NonASCIIUnused, NonASCIIUnusedDeleted   int
 	Ambiguous, AmbiguousDeleted             int
 	LinesDeleted, NonImportLinesDeleted     int
 	SecondRunsCompared, SecondRunsUnchanged int
@@ -106,6 +108,13 @@ func impRoleSig(im *importgen.Import) string {
 	if im.IsWildcard() {
 		return im.Kind
 	}
+	if im.NonASCII() {
+		return impRoleSigASCII(im) + "/non-ascii-name"
+	}
+	return impRoleSigASCII(im)
+}
+
+func impRoleSigASCII(im *importgen.Import) string {
 	cs := im.RoleClasses()
 	if im.Kind == importgen.KindStaticConst && len(cs) > 1 {
 		// the positions of a bare constant are the interesting part; several of them in one file are one class
@@ -150,9 +159,15 @@ func ImpCheck(p *importgen.Project, obs map[string]ImpObserved, extraFiles, miss
 				st.MustKeep++
 			case im.MustKeep():
 				st.MustKeep++
+				if im.NonASCII() {
+					st.NonASCIIMustKeep++
+				}
 			case im.Unused() && f.Bystander:
 			case im.Unused():
 				st.Unused++
+				if im.NonASCII() {
+					st.NonASCIIUnused++
+				}
 			case im.Ambiguous():
 				st.Ambiguous++
 			}
@@ -205,6 +220,9 @@ func ImpCheck(p *importgen.Project, obs map[string]ImpObserved, extraFiles, miss
 					f.Rel, f.TypeKind, fi+1, n, im.Line, impClip(im.Src), what)
 			case im.MustKeep():
 				st.Kept++
+				if im.NonASCII() {
+					st.NonASCIIKept++
+				}
 				if im.IsWildcard() {
 					st.RolesKept["wildcard"]++
 				}
@@ -213,6 +231,9 @@ func ImpCheck(p *importgen.Project, obs map[string]ImpObserved, extraFiles, miss
 				}
 			case im.Unused() && del:
 				st.UnusedDeleted++
+				if im.NonASCII() {
+					st.NonASCIIUnusedDeleted++
+				}
 				st.KindsDeleted[im.Kind]++
 			case im.Unused() && f.Bystander:
 				st.BystanderUnusedKept++ // a test source by name: the tool skips it by design, cleaning is not demanded
@@ -220,6 +241,9 @@ func ImpCheck(p *importgen.Project, obs map[string]ImpObserved, extraFiles, miss
 				kindOfFile := f.TypeKind
 				if low := strings.ToLower(f.TypeName); strings.HasSuffix(low, "test") || strings.HasSuffix(low, "tests") {
 					kindOfFile += "/name-ends-in-lower-case-test"
+				}
+				if im.NonASCII() {
+					kindOfFile += "/non-ascii-name"
 				}
 				add("unused-kept/"+im.Kind+"@"+pos+"/"+kindOfFile, "%s (%s, file %d of %d, %d unused imports planted): line %d %q is referenced nowhere in the file and was not deleted",
 					f.Rel, f.TypeKind, fi+1, n, nUnused, im.Line, impClip(im.Src))
